@@ -286,17 +286,19 @@ theorem spec_holds_on_model_alloc (reg : Reg) (heap : List Word) (hreg : RegOK r
     rw [h1, init_wordOf]
     exact seqCheck_of_log _ _ _ h2
 
--- non-vacuity: a well-formed non-empty `healthStore`; a contended schedule of three host-creating threads (two for the
--- fresh address 7, one for the known address 3) that completes with the two hosts of address 7 sharing one word
+-- non-vacuity: a well-formed non-empty `healthStore`; a contended (round-robin) schedule of three host-creating threads
+-- (two for the fresh address 7, one for the known address 3) that completes with the two hosts of address 7 sharing one
+-- word.  (Steps of a finished thread are no-ops, so the schedule also completes for pointer programs with two steps.)
 example : RegOK [(3, 0)] [5] := ⟨by intro a id; simp [List.lookup]; split <;> simp_all, by
   intro a b id; simp only [List.lookup]; split <;> split <;> simp_all⟩
 example :
     ((World.init [(3, 0)] [5] [(7, [.set 1]), (7, [.set 2]), (3, [.clear 4])]).run genPP genP
-      [0, 2, 1, 0, 1, 2, 0, 1, 2, 1, 1]).done = true ∧
+      [0, 1, 2, 0, 1, 2, 0, 1, 2, 0, 1, 2, 0, 1, 2, 0, 1, 2, 0, 1, 2, 0, 1, 2]).done = true ∧
     ((World.init [(3, 0)] [5] [(7, [.set 1]), (7, [.set 2]), (3, [.clear 4])]).run genPP genP
-      [0, 2, 1, 0, 1, 2, 0, 1, 2, 1, 1]).threads.map (·.ptr) = [some 1, some 1, some 0] ∧
+      [0, 1, 2, 0, 1, 2, 0, 1, 2, 0, 1, 2, 0, 1, 2, 0, 1, 2, 0, 1, 2, 0, 1, 2]).threads.map (·.ptr)
+        = [some 1, some 1, some 0] ∧
     ((World.init [(3, 0)] [5] [(7, [.set 1]), (7, [.set 2]), (3, [.clear 4])]).run genPP genP
-      [0, 2, 1, 0, 1, 2, 0, 1, 2, 1, 1]).heap = [1, 3] := by decide
+      [0, 1, 2, 0, 1, 2, 0, 1, 2, 0, 1, 2, 0, 1, 2, 0, 1, 2, 0, 1, 2, 0, 1, 2]).heap = [1, 3] := by decide
 
 /-- **the "Load, and on a miss allocate + Store" shape does NOT give one word per address**: two threads create a host
 object for the same not-yet-known address, schedule Load₀ Load₁ Store₀ Store₁ (both miss, both allocate, the later Store
@@ -314,12 +316,13 @@ theorem load_then_store_splits :
       ((World.init [] [] [(7, [.set 1]), (7, [])]).run loadThenStorePP genP [0, 1, 0, 1, 0, 0]).observe = false := by
   decide
 
--- the same threads and schedule under the current source: one word, the condition is seen through both host objects
+-- the same threads under the current source (round-robin): one word, the condition is seen through both host objects
 example :
-    ((World.init [] [] [(7, [.set 1]), (7, [])]).run genPP genP [0, 1, 0, 0]).done = true ∧
-    ((World.init [] [] [(7, [.set 1]), (7, [])]).run genPP genP [0, 1, 0, 0]).observe.words = [(1, false), (1, false)] ∧
+    ((World.init [] [] [(7, [.set 1]), (7, [])]).run genPP genP [0, 1, 0, 1, 0, 1, 0, 1]).done = true ∧
+    ((World.init [] [] [(7, [.set 1]), (7, [])]).run genPP genP [0, 1, 0, 1, 0, 1, 0, 1]).observe.words
+      = [(1, false), (1, false)] ∧
     holds [(7, [.set 1]), (7, [])] (fun _ => 0)
-      ((World.init [] [] [(7, [.set 1]), (7, [])]).run genPP genP [0, 1, 0, 0]).observe = true := by
+      ((World.init [] [] [(7, [.set 1]), (7, [])]).run genPP genP [0, 1, 0, 1, 0, 1, 0, 1]).observe = true := by
   decide
 
 end Allocation
